@@ -745,11 +745,17 @@ def _validated_input(ctx, rule):
     return c07.r1b_validate_final_value(ctx, rule)
 
 
+def r13_memo(ctx, rule):
+    from .common import memo_discipline
+    memo_discipline(ctx, rule, ['trainer.py'], 'lib_trainer/pcfg_password_parser.py::PCFGPasswordParser.parse')
+
+
 def rules(tier):
     return [('C05.R1', r1_splice_discipline), ('C05.R2', r2_slice_tiling), ('C05.R4', r4_multiword_parts),
             ('C05.R5', r5_totality), ('C05.R6', r6_counter_pairing), ('C05.R7', r7_index_space), ('C05.R8', r8_constants),
             ('C05.R10', r10_keyboard_single_layout),
-            ('C05.R11', r11_multiword_training_runs), ('C05.R12', _validated_input)]
+            ('C05.R11', r11_multiword_training_runs), ('C05.R12', _validated_input),
+            ('C05.R13', r13_memo)]
 
 
 META = {
